@@ -32,6 +32,8 @@ confirm)
     [ -f "$f" ] || continue
     pkg=$(grep -m1 '^package ' "$f" | awk '{print $2}'); pkg=${pkg%_test}
     d=$(pkgdir "$pkg")
+    # package main: the check tool, unless the change is about the extend tool only
+    if [ "$pkg" = main ] && grep -q '^+++ b/tools/extend/' "$dir/patch.diff" && ! grep -q '^+++ b/tools/check/' "$dir/patch.diff"; then d=tools/extend; fi
     cp "$f" "$wt/$d/" ; demos+=("$d")
   done
   [ ${#demos[@]} -gt 0 ] || { echo "CONFIRM FAIL: no demo *_test.go"; exit 1; }
